@@ -947,8 +947,8 @@ template <int FAM, class... E> struct Prop<FAM, Group<E...>> {
 #if C02_PART == 0
 typedef Group<TQ<float, glm::highp>> G_float;
 #define GS_float "float"
-REG_GROUP(G_float, float, 1, 0.4)
-REG_DIV(G_float, float, 1, 0.4)
+REG_GROUP(G_float, float, 1, 1)
+REG_DIV(G_float, float, 1, 1)
 
 // ---- instantiation: units whose GLM expression is declared for the element type but does not compile (found by the pre-pass)
 struct Missing { int kind, s1, s2, ty; const char* err; };
@@ -1001,36 +1001,36 @@ int main(int argc, char** argv) { return pbt::pbt_main(argc, argv, "C02"); }
 #elif C02_PART == 1
 typedef Group<TQ<double, glm::highp>> G_double;
 #define GS_double "double"
-REG_GROUP(G_double, double, 1, 0.4)
-REG_DIV(G_double, double, 1, 0.4)
+REG_GROUP(G_double, double, 1, 1)
+REG_DIV(G_double, double, 1, 1)
 #elif C02_PART == 2
 typedef Group<TQ<glm::int32, glm::highp>> G_int32;
 #define GS_int32 "int32"
-REG_GROUP(G_int32, int32, 1, 0.4)
+REG_GROUP(G_int32, int32, 1, 1)
 #elif C02_PART == 3
 typedef Group<TQ<glm::uint32, glm::highp>> G_uint32;
 #define GS_uint32 "uint32"
-REG_GROUP(G_uint32, uint32, 1, 0.4)
+REG_GROUP(G_uint32, uint32, 1, 1)
 #elif C02_PART == 4
 typedef Group<TQ<glm::int8, glm::highp>, TQ<glm::uint8, glm::highp>> G_int8;
 #define GS_i8 "int8,uint8"
-REG_GROUP(G_int8, i8, 0.5, 0.4)
+REG_GROUP(G_int8, i8, 0.5, 1)
 #elif C02_PART == 5
 typedef Group<TQ<glm::int16, glm::highp>, TQ<glm::uint16, glm::highp>> G_int16;
 #define GS_i16 "int16,uint16"
-REG_GROUP(G_int16, i16, 0.5, 0.4)
+REG_GROUP(G_int16, i16, 0.5, 1)
 #elif C02_PART == 6
 typedef Group<TQ<glm::int64, glm::highp>, TQ<glm::uint64, glm::highp>> G_int64;
 #define GS_i64 "int64,uint64"
-REG_GROUP(G_int64, i64, 0.5, 0.4)
+REG_GROUP(G_int64, i64, 0.5, 1)
 #elif C02_PART == 7
 typedef Group<TQ<float, glm::mediump>, TQ<double, glm::lowp>> G_fq;
 #define GS_fq "float.mediump,double.lowp"
-REG_GROUP(G_fq, fq, 0.5, 0.4)
-REG_DIV(G_fq, fq, 0.5, 0.4)
+REG_GROUP(G_fq, fq, 0.5, 1)
+REG_DIV(G_fq, fq, 0.5, 1)
 #elif C02_PART == 8
 typedef Group<TQ<glm::int32, glm::lowp>, TQ<glm::uint32, glm::mediump>> G_iq;
 #define GS_iq "int32.lowp,uint32.mediump"
-REG_GROUP(G_iq, iq, 0.5, 0.4)
+REG_GROUP(G_iq, iq, 0.5, 1)
 #endif
 #endif  // !C02_PROBE
